@@ -80,3 +80,62 @@ def single_target_cells(tier: str, seed: int) -> List[Dict[str, Any]]:
                                       "action": {"kind": "op", "entry": entry, "fam": fam, "type": typ, "params": params,
                                                  "targets": [LY.rename(sp, target)]}})
     return cells
+
+
+I1 = {"re": 0, "im": 1}
+PAIR_OPS = [   # (type, params, operand kinds)
+    ("CXPolarization", {}, "pp"), ("CZPolarization", {}, "pp"), ("SwapPolarization", {}, "pp"),
+    ("NonPolarizingBeamSplitter", {"eta": 0.6}, "ff"), ("NonPolarizingBeamSplitter", {"eta": -2.9}, "ff"),
+    ("Expression", {"expr": ["kron", ["expm", ["s_mult", I1, 0.3, "n0"]], "h"], "state_types": ["Fock", "Polarization"], "context": "two"}, "fp"),
+    ("Expression", {"expr": ["kron", "x", ["expm", ["s_mult", I1, -0.8, "n1"]]], "state_types": ["Polarization", "Fock"], "context": "two"}, "pf"),
+    ("Expression", {"expr": ["expm", ["s_mult", I1, 0.4, ["kron", "z", "gc1"]]], "state_types": ["Polarization", "CustomState"], "context": "twoc"}, "pc"),
+]
+TRIPLE_OPS = [
+    ("CSwapPolarization", {}, "ppp"),
+    ("Expression", {"expr": ["kron", "x", "h", "z"], "state_types": ["Polarization", "Polarization", "Polarization"], "context": "three"}, "ppp"),
+    ("Expression", {"expr": ["expm", ["s_mult", I1, 0.5, ["kron", "z", "gc1", "x"]]],
+                    "state_types": ["Polarization", "CustomState", "Polarization"], "context": "threec"}, "pcp"),
+]
+
+
+def _operands(kinds: str, three: bool):
+    import itertools
+    pools = {"p": ["e0.p", "e1.p"] + (["e2.p"] if three else []), "f": ["e0.f", "e1.f"], "c": ["c0"]}
+    outs = []
+    for combo in itertools.product(*[pools[k] for k in kinds]):
+        if len(set(combo)) == len(combo):
+            outs.append(list(combo))
+    return outs
+
+
+def multi_target_cells(tier: str, seed: int):
+    cells = []
+    quick = tier == "quick"
+    n = 0
+    for three, structs, ops in ((False, LY.STRUCTS, PAIR_OPS), (True, LY.STRUCTS3, TRIPLE_OPS)):
+        envs = ("e0", "e1", "e2") if three else ("e0", "e1")
+        for si, (tag, blocks) in enumerate(structs):
+            for oi, (typ, params, kinds) in enumerate(ops):
+                for ti, targets in enumerate(_operands(kinds, three)):
+                    for ltag, levels, dl in LY.level_settings(blocks, targets, tier):
+                        n += 1
+                        if quick and n % 3 != 0:
+                            continue
+                        if ltag == "M":
+                            cls_opts = ["mixed"] if quick else ["mixed", "pure"]
+                        elif ltag == "L":
+                            cls_opts = ["basis"]
+                        else:
+                            cls_opts = ["pure"] if quick else ["pure", "neg"]
+                        for cls in cls_opts:
+                            for contraction in ((True, False) if (not quick or n % 2 == 0) else (True,)):
+                                spec = LY.make_spec(blocks, levels, {}, envs=envs, default_level=dl, default_cls=cls,
+                                                    bystander=(not three and si % 4 == 1),
+                                                    fock_dims=({"e0": 2, "e1": 2, "e2": 2} if three else None))
+                                stores = sorted({LY.block_of(blocks, t)[0] for t in targets})
+                                cells.append({
+                                    "world": spec, "layout": tag, "levels": ltag, "cls": cls, "contraction": contraction, "seed": seed,
+                                    "target_store": "+".join(stores), "reordered": True, "ntargets": len(targets),
+                                    "action": {"kind": "op", "entry": "ce", "fam": "Composite", "type": typ, "params": params,
+                                               "targets": [LY.rename(spec, t) for t in targets]}})
+    return cells
